@@ -57,3 +57,16 @@ def _c08_history(sub: dict, params: dict) -> bool:
         i += 1
     _ = RefMapping
     return False
+
+
+@predicate("c03_token_at_shared_boundary")
+def _c03_shared(sub: dict, params: dict) -> bool:
+    """Step-map sub-case: the old token starts at a position where two ranges of the map touch (the first one
+    ending where the second starts), so the first containing range decides for both of its edges."""
+    from .ref.stepmap import RefMap
+
+    if sub.get("mode") != "step-map":
+        return False
+    tr = RefMap.from_stored(sub["ranges"], sub["inverted"]).triples
+    t = sub["token"]
+    return any(a[0] + a[1] == b[0] and b[0] in (t, t + 1) for a, b in zip(tr, tr[1:]))
